@@ -161,6 +161,12 @@ func (h *Host) Step() (seen []SeenEv, ok bool) {
 	h.seen = nil
 	h.seenMu.Unlock()
 	h.Parked = false
+	t0 := time.Now()
+	defer func() {
+		if d := time.Since(t0); d > 50*time.Millisecond && os.Getenv("VERIF_TIMING") != "" {
+			fmt.Fprintf(os.Stderr, "slow step %v seen=%v\n", d, h.seen)
+		}
+	}()
 	h.goCh <- struct{}{}
 	select {
 	case <-h.parked:
